@@ -83,6 +83,7 @@ def run (w : W) (args : List String) : W × String :=
     else (quiesce ((floodMsgs a.toNat! n.toNat!).foldl deliver w), "dispatched")
   | ["cl.ondisc"] => (onDisconnect w, "ok")
   | ["cl.final"] => let w' := quiesce w; (w', finalStr w')
+  | "cl.closegate" :: _ => (w, "ok")   -- Props/C11: late_call_fails, no_call_left_waiting, callbacks_once_subscriptions_closed — the shutdown is one step of the table
   | "cl.storm" :: _ => (w, "ok")   -- Props/C11: every call ends, on every schedule
   | _ => (w, "bad-op")
 
